@@ -348,6 +348,10 @@ def check(col: Collector):
     with col.rule():
         shared(col, "C19.R10", [c04._zero_division, c04._calls],
                why="apart from the documented division by zero, a deferred node raises what immediate evaluation raises")
+    with col.rule():
+        shared(col, "C19.R12", [c04._leaves],
+               why="'keeps doing so after the variables change through the manager': element and attribute steps (q1->k1) resolve their "
+                   "owner afresh at every evaluation, nothing resolved once and remembered in the node")
     from . import c20
     with col.rule():
         shared(col, "C19.R10", [c20._no_semantic_directives],
